@@ -183,6 +183,9 @@ class FakeAioTransport:
         return b"".join(d for _, d in self.written)
 
 
+from harness import core as _core
+
+
 class Endpoint:
     """one protocol instance + its fake transport"""
 
@@ -271,6 +274,8 @@ class TxDriver:
     def _feed(self, ep, data, settle=True):
         try:
             ep.proto.dataReceived(data)
+        except _core.Violation:     # raised by the harness itself (CPU guard): not something that "escaped" from the protocol
+            raise
         except Exception as e:  # what twisted.internet.tcp does: log + connectionLost(Failure)
             ep.escaped.append(e)
             if not ep.loss_delivered:
@@ -405,6 +410,8 @@ class AioDriver:
                 self.call(ep.proto.data_received, data)
             else:
                 ep.proto.data_received(data)
+        except _core.Violation:
+            raise
         except Exception as e:
             ep.escaped.append(e)
             if not ep.loss_delivered:
